@@ -69,6 +69,11 @@ pub fn plan(prop: &str) -> Vec<PlanItem> {
                     v.push(l3(s, 15_000, 400_000));
                 }
             }
+            if prop == "C17" {
+                // is_terminated() right after every poll, under the thread scheduler
+                v.push(l3("T-state", 40_000, 1_500_000));
+                v.push(l3("T-oneshot", 40_000, 1_500_000));
+            }
             v
         }
         "C02" | "C03" => vec![l1("mutex", 400_000, 12_000_000), l2("S-mutex", 300_000, 8_000_000), l3("T-mutex", 60_000, 3_000_000)],
